@@ -1040,6 +1040,44 @@ def uses_main(fdef):
     return any(r["rel"] in ("fmain", "frmain") for r in refs())
 
 
+def outside_inputs(prog, moot_name):
+    """does the moot (or a moot it clones / rears) read, in a need, a share with an ABSOLUTE path that a framer outside
+    that family writes?  Then a run of the original alone does not have the clone's inputs (O4 compares nothing)."""
+    defs = {}
+    for f in prog["framers"]:
+        defs.setdefault(f["name"], f)
+    family, todo = set(), [moot_name]
+    while todo:
+        n = todo.pop()
+        if n in family or n not in defs:
+            continue
+        family.add(n)
+        for f in defs[n]["frames"]:
+            for it in f["items"]:
+                if it["t"] == "aux":
+                    todo.append(it["of"])
+                elif it["t"] == "act" and it["a"]["k"] == "rear":
+                    todo.append(it["a"]["of"])
+    reads = set()
+    for n in family:
+        for f in defs[n]["frames"]:
+            for it in f["items"]:
+                if it["t"] in ("go", "let"):
+                    for nd in it["needs"]:
+                        if nd["k"] == "sh" and nd["ref"]["rel"] == "abs":
+                            reads.add(nd["ref"]["p"])
+    if not reads:
+        return False
+    for fr in prog["framers"]:
+        if fr["name"] in family:
+            continue
+        for f in fr["frames"]:
+            for it in f["items"]:
+                if it["t"] == "act" and "ref" in it["a"] and it["a"]["ref"]["rel"] == "abs" and it["a"]["ref"]["p"] in reads:
+                    return True
+    return False
+
+
 def relative_refs_ok(obs):
     """O2: every framer- / frame- / actor-relative reference resolves to the text's path with the own name substituted"""
     for (fname, u, frame, i, j, ref, sname, mainf) in obs.paths:
@@ -1177,11 +1215,20 @@ class CHECK(core.Check):
                   "and running generated clone / rear / raze programs with the real Builder and Skedder and comparing every "
                   "line with the Lean interpreter; the oracle rebuilds each program with a clone replaced by its original as "
                   "an ordinary auxiliary and demands identical traces.")
+    FINDINGS_NOTE = ("KNOWN finding D12r (unchanged code): a rear made between a transition's entry check and its enter - by an "
+                     "exit / rexit / renter act of the frames left or by an enter act of an over frame - into a frame that very "
+                     "transition enters gives a clone whose first-frame guard was never checked; the clone then runs where the "
+                     "original alone is refused (O4) - C12_counterexample_D12r; region = ghost flag St.lateRear of the Lean "
+                     "interpreter (drv-clones `region`), C12_rear_outside_region_partial, C12_ghost_bracket_restores. O4 and "
+                     "the other oracles claim nothing about runs inside the region; C08's engine has no rear verb and cannot "
+                     "reach it.")
     LEVEL_NOTE = ("Trusted: Lean kernel; axioms propext, Classical.choice, Quot.sound; hand transcription of framing.py / "
                   "acting.py / housing.py / building.py clone, rear, raze and framer-core code validated only by the "
                   "correspondence runs on /repo + fixes D12a, D12b; clause text -> relative path taken from C13; CPython "
                   "deepcopy and dict order. The behavioural theorem covers static trees of clones (any depth, aux-done needs); "
-                  "run-time rear / raze inside a tree and main-relative addressing are covered by correspondence and oracle only.")
+                  "run-time rear / raze inside a tree and main-relative addressing are covered by correspondence and oracle only. "
+                  "Known finding D12r (rear between entry check and enter: unchecked clone) is reproduced by the model and "
+                  "excluded from the oracles by the ghost-flag region St.lateRear.")
 
     # ---- cases
     def generate(self, rng, n, tier):
@@ -1200,6 +1247,20 @@ class CHECK(core.Check):
 
     def requests(self, case):
         return [encode(case["prog"])]
+
+    _region = {}
+
+    def region(self, finding, case):
+        """D12r: the Lean interpreter's ghost flag St.lateRear - a `rear` made a clone in a frame whose entry check was
+        over and whose enter was still to come (drv-clones request `region <program>`)"""
+        if finding.get("id") != "D12r" or "prog" not in case:
+            return False
+        key = core.case_key(case)
+        if key not in self._region:
+            req = encode(case["prog"])
+            assert req.startswith("run ")
+            self._region[key] = core.Driver(self.ENGINE).run(["region " + req[4:]]) == ["1"]
+        return self._region[key]
 
     def model_post(self, case, replies):
         return replies[0].split("|")
@@ -1371,6 +1432,8 @@ class CHECK(core.Check):
                 continue
             if inf["def"] is None or uses_main([x for x in prog["framers"] if x["name"] == inf["def"]][0]):
                 continue
+            if outside_inputs(prog, inf["def"]):
+                continue                                  # the clone's guards read a share the rest of the program writes
             nm = inf["name"]
             parent = nm.rsplit("_", 1)[0]
             if parent not in hosts or done >= 2:
